@@ -7,6 +7,7 @@ package main
 
 import (
 	"fmt"
+	"io/ioutil"
 	"math"
 	"os"
 	"path/filepath"
@@ -38,6 +39,7 @@ type St struct {
 	quiet   bool   // do not emit trace lines (twin run)
 	comment bool   // emit trace lines as comments (not replayed by the model)
 	txActive bool  // a transaction holds the database lock
+	datEnd   int64 // end of the last data-file write (-1: unknown), for exact-fill entries
 	faultOp string // op of the event at which the injected fault fired
 	datWrites int  // complete data-file writes observed since the fault was armed
 }
@@ -223,6 +225,14 @@ func (s *St) observer(op, path string, off int64, b []byte) error {
 	if op == "write" && strings.HasSuffix(path, ".dat") && s.faultAt > 0 {
 		s.datWrites++
 	}
+	if strings.HasSuffix(path, ".dat") {
+		switch op {
+		case "write":
+			s.datEnd = off + int64(len(b))
+		case "truncate":
+			s.datEnd = 0 // a new segment
+		}
+	}
 	if s.record {
 		var d []byte
 		if b != nil {
@@ -276,6 +286,23 @@ func (s *St) exec(call string) (rcall string, res string) {
 			return call, "err"
 		}
 		s.db = db
+		s.datEnd = -1
+		// end of the data in the active (highest-numbered) segment: after its last non-zero byte
+		if fs, _ := filepath.Glob(s.dir + "/*.dat"); len(fs) > 0 {
+			best, bestID := "", -1
+			for _, f := range fs {
+				if id, err := strconv.Atoi(strings.TrimSuffix(filepath.Base(f), ".dat")); err == nil && id > bestID {
+					best, bestID = f, id
+				}
+			}
+			if b, err := ioutil.ReadFile(best); err == nil {
+				end := len(b)
+				for end > 0 && b[end-1] == 0 {
+					end--
+				}
+				s.datEnd = int64(end)
+			}
+		}
 		return call, "ok"
 	case "close":
 		if s.db == nil {
@@ -352,6 +379,14 @@ func (s *St) exec(call string) (rcall string, res string) {
 	case "put":
 		s.keys[S(1)] = true
 		return call, errOr(tx.PutWithTimestamp(S(0), B(1), B(2), uint32(atou(a[3])), atou(a[4])), "ok")
+	case "putfill": // a put whose value makes the record end exactly at the end of the active segment
+		s.keys[S(1)] = true
+		room := s.opt.SegmentSize - s.datEnd - 42 - int64(len(S(0))) - int64(len(S(1)))
+		v := []byte("v")
+		if s.datEnd >= 0 && tx.VerifPending() == 0 && room >= 0 && room <= s.opt.SegmentSize {
+			v = []byte(strings.Repeat("F", int(room)))
+		}
+		return "put " + a[0] + " " + a[1] + " " + hx(v) + " 0 1700000000", errOr(tx.PutWithTimestamp(S(0), B(1), v, 0, 1700000000), "ok")
 	case "putnow": // Put with the library's own clock; ts is an oracle input read from the clock
 		s.keys[S(1)] = true
 		before := time.Now().Unix()
